@@ -677,9 +677,9 @@ int main(int argc, char** argv) {
         _exit(g_viol.empty() ? 0 : 1);
     }
     int nA = mode == "thorough" ? 6 : 5;
-    int lenA = mode == "thorough" ? 10 : 8;
+    int lenA = mode == "thorough" ? 11 : 8;
     int depthB = 16;
-    int lenB = mode == "thorough" ? 9 : 7;
+    int lenB = mode == "thorough" ? 10 : 7;
     g_shared_current = (char*)mmap(
         nullptr, 4096, PROT_READ | PROT_WRITE, MAP_SHARED | MAP_ANONYMOUS, -1, 0);
     fflush(stdout);
